@@ -143,11 +143,30 @@ func runFlaky(c *fw.Case) {
 		panic(err)
 	}
 	file, w, err := full.Save(30)
+	var file2 *store.FileInfo
+	want2 := map[string][]byte{}
 	if err == nil {
-		// the squasher queues the write and goes on merging into the same store: what is written must be the store AT Save time
+		// the squasher queues the write and goes on merging into the same store: what is written must be the store AT Save time,
+		// also when the NEXT boundary's snapshot is saved (same or smaller size) before the first write has happened
 		full.ApplyDelta(&pbsubstreams.StoreDelta{Operation: pbsubstreams.StoreDelta_CREATE, Key: "zzz-added-after-save", NewValue: []byte("later")})
 		full.ApplyDelta(&pbsubstreams.StoreDelta{Operation: pbsubstreams.StoreDelta_DELETE, Key: "k000", OldValue: want["k000"]})
+		if c.R.Intn(2) == 0 {
+			for k, v := range want { // shrink: the second snapshot is not larger than the first
+				if k != "k000" && len(v) > 0 && c.R.Intn(3) == 0 {
+					full.ApplyDelta(&pbsubstreams.StoreDelta{Operation: pbsubstreams.StoreDelta_UPDATE, Key: k, OldValue: v, NewValue: v[:len(v)/2]})
+				}
+			}
+		}
+		full.Iter(func(k string, v []byte) error { want2[k] = append([]byte(nil), v...); return nil })
+		var w2 interface{ Write(context.Context) error }
+		var err2 error
+		file2, w2, err2 = full.Save(40)
 		err = w.Write(ctx)
+		if err == nil && err2 == nil {
+			err = w2.Write(ctx)
+		} else if err == nil {
+			err = err2
+		}
 	}
 	if err != nil {
 		c.Violation("C10/roundtrip/write-retry-failed", "saving a full snapshot through a store whose first write attempt fails returned: "+err.Error(), nil)
@@ -159,6 +178,17 @@ func runFlaky(c *fw.Case) {
 		return
 	}
 	check("full", lf)
+	if file2 != nil {
+		lf2 := cfg.NewFullKV(zap.NewNop())
+		if err := lf2.Load(ctx, file2); err != nil {
+			c.Violation("C10/roundtrip/load-after-write-retry", "load of the second snapshot failed: "+err.Error(), nil)
+			return
+		}
+		save := want
+		want = want2
+		check("full (second snapshot, saved before the first was written)", lf2)
+		want = save
+	}
 	pfile, pw, err := part.Save(30)
 	if err == nil {
 		err = pw.Write(ctx)
